@@ -103,6 +103,79 @@ Theorem C01_any_interleaving :
 Proof. exact exit_any_interleaving. Qed.
 Print Assumptions C01_any_interleaving.
 
+(* ---- additions: "provided reporting itself did not fail" ---------------------------------------
+   [run_exit] is the status computed from the statistics; C01_exit_zero_iff above also covers
+   histories that contain ReportCancel, where the real process does not reach that computation:
+   TestRunner::try_execute returns the reporter's error and exec_run exits with
+   WRITE_OUTPUT_ERROR = 110 (Model/RunExit.v has the code path).  [run_exit_real c mf dbg h p rf]:
+   the status of the process; [rf]: the reporter callback failed at some event ([report_cancelled
+   h], a ReportCancel in the history, implies it). *)
+From NextestModel Require Import Model.RunExit Proofs.ReportError.
+
+(* the property as worded: provided reporting did not fail, exit 0 iff every script succeeded and
+   every selected test ran to completion with a passing final attempt *)
+Theorem C01_exit_zero_iff_reporting_ok :
+  forall c mf dbg h p,
+    wf_history c mf dbg h = true -> (shutdown_count h <= 2)%nat ->
+    report_cancelled h = false ->
+    (run_exit_real c mf dbg h p false = Some 0%Z <->
+     (forall r, In r (script_results h) -> is_success r = true) /\
+     (forall t, In t (c_sel c) -> exists a, final_of h t = Some a /\ is_success (a_res a) = true) /\
+     (c_sel c <> [] \/ p = Some NtPass \/ p = Some NtWarn)).
+Proof. exact exit_zero_iff_reporting_ok. Qed.
+Print Assumptions C01_exit_zero_iff_reporting_ok.
+
+Theorem C01_exit_is_spec_reporting_ok :
+  forall c mf dbg h p,
+    wf_history c mf dbg h = true -> (shutdown_count h <= 2)%nat ->
+    report_cancelled h = false ->
+    run_exit_real c mf dbg h p false = Some (spec_exit c h p).
+Proof. exact exit_spec_reporting_ok. Qed.
+Print Assumptions C01_exit_is_spec_reporting_ok.
+
+(* reporting failed (seen by the dispatcher or not): 110, never 0, whatever the tests did *)
+Theorem C01_exit_report_error :
+  forall c mf dbg h p rf,
+    wf_history c mf dbg h = true -> (shutdown_count h <= 2)%nat ->
+    rf = true \/ report_cancelled h = true ->
+    run_exit_real c mf dbg h p rf = Some EXIT_WRITE_OUTPUT_ERROR /\
+    run_exit_real c mf dbg h p rf <> Some 0%Z.
+Proof. exact exit_report_error. Qed.
+Print Assumptions C01_exit_report_error.
+
+(* both cases: the process exits 0 iff reporting did not fail and everything selected passed *)
+Theorem C01_exit_real_zero_iff :
+  forall c mf dbg h p rf,
+    wf_history c mf dbg h = true -> (shutdown_count h <= 2)%nat ->
+    (run_exit_real c mf dbg h p rf = Some 0%Z <->
+     rf = false /\ report_cancelled h = false /\
+     (forall r, In r (script_results h) -> is_success r = true) /\
+     (forall t, In t (c_sel c) -> exists a, final_of h t = Some a /\ is_success (a_res a) = true) /\
+     (c_sel c <> [] \/ p = Some NtPass \/ p = Some NtWarn)).
+Proof. exact exit_real_zero_iff. Qed.
+Print Assumptions C01_exit_real_zero_iff.
+
+(* the gap in [run_exit]: a well-formed history in which the report error reaches the dispatcher
+   after the last test has finished.  Every test passed, so the statistics say Success and run_exit
+   is Some 0 (C01_exit_zero_iff applies and says so) -- the real process exits 110. *)
+Example C01_run_exit_ignores_report_error :
+  wf_history ex_cfg (Some 1) true (ex_pass ++ [ReportCancel]) = true
+  /\ run_exit ex_cfg (Some 1) true (ex_pass ++ [ReportCancel]) None = Some 0%Z
+  /\ run_exit_real ex_cfg (Some 1) true (ex_pass ++ [ReportCancel]) None false = Some 110%Z
+  /\ run_exit_real ex_cfg (Some 1) true ex_pass None true = Some 110%Z
+  /\ run_exit_real ex_cfg (Some 1) true ex_pass None false = Some 0%Z
+  /\ report_cancelled ex_pass = false.
+Proof. repeat split; vm_compute; reflexivity. Qed.
+
+(* a report error in the middle of a run: the dispatcher cancels, the remaining test never starts;
+   the statistics alone would give 100, the process exits 110 *)
+Example C01_report_error_mid_run :
+  let h := [ScriptStarted 0; ScriptFinished 0 Pass; Started 0; ReportCancel; Finished 0 (p_att 1 1)] in
+  wf_history ex_cfg None true h = true
+  /\ run_exit ex_cfg None true h None = Some 100%Z
+  /\ run_exit_real ex_cfg None true h None false = Some 110%Z.
+Proof. repeat split; vm_compute; reflexivity. Qed.
+
 (* ---- non-vacuity: well-formed histories exist, with each exit status (vm_compute) ---- *)
 
 Example ex_pass_wf : wf_history ex_cfg (Some 1) true ex_pass = true
